@@ -389,11 +389,15 @@ pub fn parse_term(to_parse: &str) -> Result<Unifiable, String> {
         return Ok(sfunc);
     }
 
-    for ch in &chrs {
+    for (i, ch) in chrs.iter().enumerate() {
         if *ch >= '0' && *ch <= '9' {
             has_digit = true;
         } else if *ch == '.' {
             has_period = true;
+        } else if (*ch == '+' || *ch == '-') && i == 0 && chrs.len() > 1 &&
+                  chrs[1] >= '0' && chrs[1] <= '9' {
+            // A plus or minus in front of a number is part of the number: +7, -3.8
+            // (The same as in parse_arguments().)
         } else {
             has_non_digit = true;
         }
